@@ -104,7 +104,7 @@ def gen_attrs(rnd, tb, depth=2, reuse=0.0):
             return d.Param(val=num(), name=f"p{rnd.randint(0, 9)}")
         if k == 5:
             return h.Literal("* comment")
-        return d.Options(value=rnd.choice([1, 2.5, "method=gear"]), name="reltol")
+        return d.Options(value=rnd.choice([1, 2.5, "method=gear", False, True, 0, 0.0, ""]), name="reltol")
     attrs = []
     for _ in range(rnd.randint(1, 6)):
         attrs.append(analysis(depth) if rnd.random() < 0.55 else control())
@@ -266,6 +266,32 @@ def check_sim(case):
         for k, (o, po) in enumerate(zip(opts, inp.opts)):
             if po.name != o.name:
                 return ("post.option", f"opts[{k}] name changed", w)
+            # the value: carried whatever it is - a switched-off flag, zero and the empty string included
+            which = po.value.WhichOneof("value")
+            v = o.value
+            if which is None:
+                return ("post.option-value", f"opts[{k}] = {v!r} exported without a value", w)
+            if isinstance(v, bool):
+                ok = which == "int64_value" and po.value.int64_value == int(v)
+            elif isinstance(v, str):
+                ok = which == "literal" and po.value.literal == v
+            elif isinstance(v, h.Literal):
+                ok = which == "literal" and po.value.literal == v.text
+            else:
+                from fractions import Fraction as _F
+                if which == "prefixed":
+                    pp = po.value.prefixed
+                    n = {"int64_value": lambda: _F(pp.int64_value), "string_value": lambda: _F(Decimal(pp.string_value)),
+                         "double_value": lambda: _F(pp.double_value)}[pp.WhichOneof("number")]()
+                    import vlsir
+                    exp = {"UNIT": 0, "KILO": 3, "MILLI": -3, "MICRO": -6, "NANO": -9, "PICO": -12, "MEGA": 6}.get(vlsir.SIPrefix.Name(pp.prefix))
+                    val = n * _F(10) ** exp if exp is not None else None
+                else:
+                    val = {"int64_value": lambda: _F(po.value.int64_value), "double_value": lambda: _F(po.value.double_value)}.get(which, lambda: None)()
+                want = _F(v.number) * _F(10) ** v.prefix.value if isinstance(v, h.Prefixed) else _F(Decimal(repr(v))) if isinstance(v, float) else _F(v)
+                ok = val is None or val == want
+            if not ok:
+                return ("post.option-value", f"opts[{k}] = {v!r} exported as {str(po.value).strip()!r}", w)
     return None
 
 
